@@ -10,7 +10,10 @@ const XHTML: &str = "http://www.w3.org/1999/xhtml";
 const XHTML_CRATE: &str = "https://www.w3.org/1999/xhtml"; // what src/output/html5elements.rs calls XHTML_NS
 const MATHML: &str = "http://www.w3.org/1998/Math/MathML";
 const SVG: &str = "http://www.w3.org/2000/svg";
-const VOID: &[&str] = &["area", "base", "br", "col", "embed", "hr", "img", "input", "link", "meta", "param", "source", "track", "wbr"];
+// void elements as XSLT and XQuery Serialization 3.1 (section 7.1, the specification the crate's HTML5 method follows) lists them:
+// the HTML5 list (which includes keygen) together with the HTML 4 ones (basefont, frame, isindex)
+const VOID: &[&str] = &["area", "base", "br", "col", "embed", "hr", "img", "input", "keygen", "link", "meta", "param", "source", "track", "wbr",
+                        "basefont", "frame", "isindex"];
 
 struct HPool { pool: Pool }
 
@@ -304,6 +307,34 @@ fn sanitize(a: &mut ANode, reg: &Reg) {
     }
 }
 
+const TABLE_DOCS: usize = 30;
+
+/// every string literal of the name arrays in src/output/html5elements.rs (lower-case ASCII names)
+fn table_names() -> Vec<String> {
+    let repo = std::env::var("VERIF_REPO").unwrap_or_else(|_| "/repo".to_string());
+    let src = std::fs::read_to_string(format!("{}/src/output/html5elements.rs", repo)).unwrap_or_default();
+    let mut out: Vec<String> = vec![];
+    let mut it = src.split('"');
+    it.next();
+    while let Some(lit) = it.next() {
+        if !lit.is_empty() && lit.len() <= 12 && lit.chars().all(|c| c.is_ascii_lowercase() || c.is_ascii_digit()) && !out.iter().any(|x| x == lit) {
+            out.push(lit.to_string());
+        }
+        it.next();
+    }
+    out
+}
+
+fn table_stream_len() -> usize { if table_names().is_empty() { 0 } else { TABLE_DOCS } }
+
+fn spellings(n: &str) -> Vec<String> {
+    let cap: String = n.chars().enumerate().map(|(i, c)| if i == 0 { c.to_ascii_uppercase() } else { c }).collect();
+    let alt: String = n.chars().enumerate().map(|(i, c)| if i % 2 == 1 { c.to_ascii_uppercase() } else { c }).collect();
+    let mut v = vec![n.to_string(), n.to_ascii_uppercase()];
+    for s in [cap, alt] { if !v.contains(&s) { v.push(s); } }
+    v
+}
+
 fn main() {
     quiet_panics();
     let a = args();
@@ -323,6 +354,26 @@ fn main() {
                 let (case, rest) = v[k].split_once(' ').unwrap();
                 let parts: Vec<&str> = rest.split(" | ").collect();
                 (case.to_string(), xh::treeparse::parse_anode(parts[1]).expect("tree"), parts[2].split(',').map(parse_q).collect())
+            }
+            None if k < table_stream_len() => {
+                // table stream: every name of the crate's HTML name tables (read from the source, as the translator does), in three
+                // letter-case spellings that are neither all-lower nor all-upper alone, in no namespace and in the namespace the
+                // crate calls XHTML_NS, as empty elements under one <div>: void / end-tag, phrasing and formatted decisions per name
+                let names = table_names();
+                let per = (names.len() + TABLE_DOCS - 1) / TABLE_DOCS;
+                let mut kids = vec![];
+                for nm in names.iter().skip(k * per).take(per) {
+                    for sp in spellings(nm) {
+                        for u in [0usize, pool.uris[2]] {
+                            let id = reg.name(&mut xot, &sp, u);
+                            kids.push(ANode::Elem { name: id, ns: vec![], attrs: vec![], kids: vec![] });
+                        }
+                    }
+                }
+                let div = reg.name(&mut xot, "div", 0);
+                let mut t = ANode::Doc(vec![ANode::Elem { name: div, ns: vec![], attrs: vec![], kids }]);
+                declare_missing(&mut r, &mut t, &reg, pool, 100);
+                (format!("c{}", k), t, vec![Q { node: 0, cdata: vec![], suppress: vec![], indent: false }, Q { node: 0, cdata: vec![], suppress: vec![], indent: true }])
             }
             None => {
                 let cfg = GenCfg { max_nodes: 22, max_depth: 5, doc_root: 55, fragment: 45, adjacent_text: false, empty_text: false, ..GenCfg::default() };
